@@ -421,9 +421,13 @@ REGISTRY = {
     },
     'C07': {
         'theorems': ['PP.C07.timedelta', 'PP.C07.timedelta_ranges', 'PP.C07.dropWhile_zero_restores', 'PP.C07.time_fields',
-                     'PP.C07.datetime_date_only', 'PP.C07.chainmap_shortcut', 'PP.C07.deque_maxlen', 'PP.C04.sound_pformat', 'PP.C07.printer_inventory'],
-        'modules': VALUE_MODULES + ['PP.Model.Std', 'PP.Props.C07', 'PP.Generated', 'PP.Props.PrinterInventory', 'PP.Props.C04'],
+                     'PP.C07.datetime_date_only', 'PP.C07.chainmap_shortcut', 'PP.C07.deque_maxlen', 'PP.C04.sound_pformat', 'PP.C07.printer_inventory',
+                     'PP.C07.output_reads_back', 'PP.C07.utc_denotes', 'PP.C07.enum_denotes', 'PP.C07.date_denotes', 'PP.C07.time_inRd',
+                     'PP.C07.datetime_inRd', 'PP.C07.timezone_inRd', 'PP.C07.deque_inRd', 'PP.C07.deque_denotes', 'PP.C07.chainmap_inRd',
+                     'PP.C07.oneArg_inRd', 'PP.C07.defaultdict_inRd', 'PP.C07.isNumTok_intLit'],
+        'modules': VALUE_MODULES + ['PP.Model.Std', 'PP.Props.C07', 'PP.Generated', 'PP.Props.PrinterInventory', 'PP.Props.C04', 'PP.Props.C07b'],
         'sections': [{'name': 'stdlib', 'run': simple_sec('sec_stdlib', 'stdlib_section')},
+                     {'name': 'reader', 'run': values_sec('reader_section', mode='c07')},
                      {'name': 'builtin-values', 'run': values_sec('builtin_values_section')},
                      {'name': 'mix', 'run': values_sec('mix_section')}],
         'trusted': VALUE_TRUSTED,
